@@ -40,6 +40,9 @@ pub enum KeySel {
 pub enum ValSel {
     Lit(Vec<u8>),
     Fill { len: u32, seed: u8 },
+    /// value sized so that key length + value length = `total` (used to make a one-element leaf
+    /// serialise to exactly a whole number of pages, or one byte off)
+    Fit { total: u32, seed: u8 },
 }
 
 #[derive(Serialize, Deserialize, Clone, Debug, PartialEq, Eq, Hash)]
@@ -55,7 +58,7 @@ pub enum Op {
     Get { b: u16, k: KeySel },
     GetKv { b: u16, k: KeySel },
     Delete { b: u16, k: KeySel },
-    /// n keys base+counter (padded to klen), counter = start, start+step, ...
+    /// n keys base+counter (padded to klen; klen >= 250 means 500, 800, ... bytes), counter = start, start+step, ...
     PutRun { b: u16, base: Vec<u8>, start: u16, step: u8, n: u8, klen: u8, vlen: u16 },
     /// delete n consecutive existing key/value pairs starting at the start-th entry
     DeleteRun { b: u16, start: u16, n: u8 },
@@ -128,6 +131,9 @@ pub fn fill_bytes(len: usize, seed: u8) -> Vec<u8> {
 }
 
 pub fn run_key(base: &[u8], counter: u32, klen: usize) -> Vec<u8> {
+    // klen 250.. selects long keys (500, 800, 1100, ... bytes): two of them do not fit a
+    // 1024-byte branch page, so branch pages get overflow runs
+    let klen = if klen >= 250 { (klen - 249) * 300 + 200 } else { klen };
     let mut k = base.to_vec();
     k.extend_from_slice(format!("{:05}", counter).as_bytes());
     while k.len() < klen {
@@ -203,6 +209,8 @@ pub fn val_sel(ps: u32) -> impl Strategy<Value = ValSel> {
         4 => (ps / 8..ps / 3, any::<u8>()).prop_map(|(len, seed)| ValSel::Fill { len, seed }),
         2 => (ps - 200..ps + 200, any::<u8>()).prop_map(|(len, seed)| ValSel::Fill { len, seed }),
         1 => (2 * ps..12 * ps, any::<u8>()).prop_map(|(len, seed)| ValSel::Fill { len, seed }),
+        // a one-element leaf of exactly k pages (40-byte page header + 32-byte element header), +-1 byte
+        1 => (1u32..6, -1i32..2, any::<u8>()).prop_map(move |(k, d, seed)| ValSel::Fit { total: ((k * ps) as i32 - 72 + d) as u32, seed }),
     ]
 }
 
@@ -261,7 +269,7 @@ pub fn op(ps: u32, w: OpWeights) -> impl Strategy<Value = Op> {
             0u16..60,
             1u8..4,
             1u8..40,
-            prop::sample::select(vec![0u8, 0, 8, 60, 200]),
+            prop::sample::select(vec![0u8, 0, 0, 0, 8, 8, 60, 60, 200, 200, 250, 251]),
             prop::sample::select(vec![0u16, 10, 90, 200, 400, 1000])
         )
             .prop_map(|(b, base, start, step, n, klen, vlen)| Op::PutRun {
